@@ -8,6 +8,7 @@ import (
 	"strings"
 	"sync"
 	"sync/atomic"
+	"time"
 
 	"verif/harness/model"
 )
@@ -139,6 +140,10 @@ func checkC02(ctx *Ctx) {
 		ctx.SetCurrent("C02 strace lane")
 		c02Strace(ctx)
 	}
+	if ctx.Shard == 2 || ctx.NShards == 1 {
+		ctx.SetCurrent("C02 log-order lane")
+		c02LogOrder(ctx)
+	}
 	nw := ctx.N(18, 96)
 	policies := []string{"always", "everysec", "no"}
 	for wi := 0; wi < nw; wi++ {
@@ -152,6 +157,16 @@ func checkC02(ctx *Ctx) {
 			nops = 40 + r.Intn(60)
 		}
 		w := genWorkload(r, fmt.Sprintf("w%d", wi), policy, nops, BaseTimeNs)
+		if policy == "always" && (wi/3)%2 == 0 {
+			// a log rewrite in the middle of the history: the writes after it must survive like the others
+			at := len(w.Ops)/3 + r.Intn(len(w.Ops)/3)
+			rw := pOp{Caller: pick(r, []string{"emb", "t1"}), Argv: []string{"REWRITEAOF"}}
+			// the last write before the rewrite and the first ones after it are in the same, non-zero database
+			db := pDBs[1+r.Intn(len(pDBs)-1)]
+			block := []pOp{{Caller: "emb", SelDB: &db}, {Caller: "emb", Argv: []string{"SET", "k1", "before-rewrite"}}, rw,
+				{Caller: "emb", Argv: []string{"SET", "k2", "after-rewrite"}}, {Caller: "emb", Argv: []string{"RPUSH", "k3", "after-rewrite"}}}
+			w.Ops = append(w.Ops[:at], append(block, w.Ops[at:]...)...)
+		}
 		ctx.SetCurrent(fmt.Sprintf("C02 workload %s policy %s seed %d", w.Name, policy, ctx.Seed))
 		c02Workload(ctx, w, wi)
 	}
@@ -383,5 +398,87 @@ func c02Witnesses(ctx *Ctx) {
 		}
 		ctx.Eval(1)
 		rec.cleanup()
+	}
+}
+
+// c02LogOrder: the log must record conflicting writes in the order in which they were executed. Client A
+// is held (delay injection at the cmd.after_handler hook point, i.e. after its handler has run and before
+// its record is appended) while client B writes the same key; whatever the server does with B meanwhile,
+// the dataset restored from the log must be the live dataset at the stop.
+func c02LogOrder(ctx *Ctx) {
+	pairs := [][2][]string{
+		{{"SET", "k", "from-A"}, {"SET", "k", "from-B"}},
+		{{"RPUSH", "l", "a"}, {"RPUSH", "l", "b"}},
+		{{"SET", "n", "5"}, {"INCR", "n"}},
+		{{"HSET", "h", "f", "A"}, {"HSET", "h", "f", "B"}},
+		{{"SADD", "s", "x"}, {"DEL", "s"}},
+		{{"APPEND", "t", "A"}, {"APPEND", "t", "B"}},
+	}
+	for pi, pr := range pairs {
+		for _, policy := range []string{"always", "no"} {
+			root := mkScratch("c02order")
+			dir := filepath.Join(root, "data")
+			_ = os.MkdirAll(dir, 0o755)
+			clk := NewVClock()
+			in, err := NewInst(InstOpts{DataDir: dir, AOFStrategy: policy, Clock: clk})
+			if err != nil {
+				ctx.Broken("C02 log order: " + err.Error())
+				os.RemoveAll(root)
+				return
+			}
+			in.Do("SET", "n", "1") // so that INCR has something to work on
+			var armed, held atomic.Bool
+			release := make(chan struct{})
+			armed.Store(true)
+			setHook(func(name string, args ...interface{}) {
+				if name == "cmd.after_handler" && armed.CompareAndSwap(true, false) {
+					held.Store(true)
+					select {
+					case <-release:
+					case <-time.After(10 * time.Second):
+					}
+				}
+			})
+			aDone := make(chan struct{})
+			go func() {
+				in.Do(pr[0]...)
+				close(aDone)
+			}()
+			ok := waitFor(10*time.Second, func() bool { return held.Load() })
+			bDone := make(chan struct{})
+			go func() {
+				in.Do(pr[1]...)
+				close(bDone)
+			}()
+			// B either completes (no exclusion between A's handler and A's record) or blocks until A is released
+			bFirst := false
+			select {
+			case <-bDone:
+				bFirst = true
+			case <-time.After(150 * time.Millisecond):
+			}
+			close(release)
+			<-aDone
+			<-bDone
+			setHook(nil)
+			ctx.Eval(1)
+			ctx.Class(fmt.Sprintf("log-order|%s|%s|b-overtook=%v", strings.ToLower(pr[0][0]), policy, bFirst))
+			live := CanonDump(in.S.VerifDump(), clk.NowNs())
+			in.Close()
+			if !ok {
+				ctx.Inconclusive("C02 log order: the hook point was not reached")
+				os.RemoveAll(root)
+				continue
+			}
+			d, rdir, rerr := restoreDump(dir, policy, clk, true, false, nil)
+			os.RemoveAll(rdir)
+			os.RemoveAll(root)
+			if rerr != nil || !canonEq(live, d) {
+				ctx.Violate(Violation{Kind: "log_order", Lane: "aof-order",
+					What: fmt.Sprintf("A = %s was held between its handler and its log record while B = %s ran (B finished before A was released: %v); after a clean stop the dataset restored from the log differs from the live dataset: %v %s",
+						Step{Argv: pr[0]}.String(), Step{Argv: pr[1]}.String(), bFirst, rerr, model.DiffCanon(live, d)),
+					Case: map[string]interface{}{"a": pr[0], "b": pr[1], "policy": policy}, Key: fmt.Sprintf("c02|log-order|%d", pi)})
+			}
+		}
 	}
 }
